@@ -183,6 +183,13 @@ def run(ck, rng):
             long = b"- " + b"x" * (n - 2)
             lines = ([long] + lines) if pos == "first" else (lines + [long])
             scen.append(("out-d", b"\n".join(lines) + b"\n", [], [], [(b"tgt", "d")], "0", None, "long"))
+    # rows ending in a carriage return that is NOT part of the line terminator ("\r\r\n"): the name keeps it (D25)
+    for _ in range(10 if ck.tier == "quick" else 150):
+        items = [(1, b"r%d" % r) for r in range(rng.randint(2, 5))]
+        lines = []
+        for d, n in items:
+            lines += [b"- " + n + rng.choice([b"\r", b"", b"\r\r"]), b"  - c" + rng.choice([b"\r", b""])]
+        scen.append((rng.choice(["out-d", "out-j", "walk"]), b"\r\n".join(lines) + b"\r\n", [], [], [(b"tgt", "d")], "0", None, "cr"))
     # the known-finding inputs
     k1 = b"# a\n- b\n- c\n# d\n- e\n"
     k2 = b"- a\n - b\n - c\n- r\n\t- s\n\t- t\n- u\n - v\n"
